@@ -54,7 +54,7 @@ def raw_cmd(bits, value):
     return Command(ForwardFrame(bits, value))
 
 
-def run_async(driver, cmds, start_seq=1):
+def run_async(driver, cmds, start_seq=1, exc_on=True):
     """Send cmds sequentially through an async driver; returns (raw writes, results)."""
     results = []
 
@@ -72,7 +72,7 @@ def run_async(driver, cmds, start_seq=1):
         bus = lambda b, v, i: ("none",)
         if driver in ("tridonic", "hasseb"):
             from dalimc.aio.hidworld import HidWorld
-            w = HidWorld(driver, bus, callers, start_seq=start_seq)
+            w = HidWorld(driver, bus, callers, start_seq=start_seq, exceptions_on_send=exc_on)
         else:
             from dalimc.aio.serialworld import SerialWorld
             w = SerialWorld(driver, bus, callers)
@@ -101,8 +101,8 @@ def expected_async(driver, cmd, seq=None):
     return [GF.sci(bits, value, twice)]
 
 
-def check_async_batch(res, driver, cmds, start_seq, what):
-    w, results = run_async(driver, cmds, start_seq)
+def check_async_batch(res, driver, cmds, start_seq, what, exc_on=True):
+    w, results = run_async(driver, cmds, start_seq, exc_on)
     writes = w.raw_writes
     # strip handshake writes
     if driver == "tridonic":
@@ -123,6 +123,9 @@ def check_async_batch(res, driver, cmds, start_seq, what):
             from dali.gear.general import EnableDeviceType
             units = [EnableDeviceType(c.devicetype), c]
         if r[0] == "raised":
+            if r[1] not in ("UnsupportedFrameTypeError", "ValueError", "TypeError", "NotImplementedError"):
+                add_violation(res, f"C18:{driver}:not-refused-properly:{r[1]}", f"{driver} send of a {bits}-bit frame (exceptions_on_send={exc_on}) ended with {r[1]}, "
+                              f"not with a refusal", case)
             if bits in CARRY[driver]:
                 add_violation(res, f"C18:{driver}:refused-supported-length", f"{driver} send of a {bits}-bit frame raised {r[1]}", case)
             elif r[2] != 0:
@@ -272,6 +275,9 @@ def run_shard(shard):
             for v in (0, (1 << bits) - 1):
                 cmds.append(raw_cmd(bits, v))
         check_async_batch(res, d, cmds, 1, "lengths")
+        if d in ("tridonic", "hasseb"):
+            # with exceptions switched off (retry after loss) an unsupported length must still be refused at once
+            check_async_batch(res, d, [raw_cmd(b, 0) for b in (8, 15, 16, 17, 24, 25, 32)], 1, "lengths-noexc", exc_on=False)
         sample(res, {"driver": d, "lengths": "1..64"})
     elif k == "raw16":
         _, d, lo, hi, step = shard
